@@ -354,9 +354,12 @@ func c08PFD(res *vResult) {
 		nsess := 0
 		for step := 0; step < 6+rng.Intn(8); step++ {
 			seq++
-			if rng.Intn(3) != 0 || len(table) == 0 {
+			if rng.Intn(3) != 0 || step == 0 {
 				// PFD management request: 1-3 applications with 1-3 flow descriptions each; sometimes one that must be rejected
 				napp := 1 + rng.Intn(3)
+				if rng.Intn(8) == 0 {
+					napp = 0 // a request without any application withdraws everything that was provisioned
+				}
 				var apps []vPFDApp
 				next := map[string][]*mFlow{}
 				for k := 0; k < napp; k++ {
